@@ -250,14 +250,14 @@ def model_mc(run, module, pid, cfgs, d, timeout=1500, maxt=6, maxcalls=4, qstep=
         log("MC: model %s violates %s (to be confirmed on the real code)" % (module, r.violated))
 
 
-def model_live(run, module, cfgs, d, prop, timeout=1500):
+def model_live(run, module, cfgs, d, prop, timeout=1500, spec="FairSpec"):
     """Liveness under fairness (TLC, no history variable): e.g. cancelled + inputs closed leads to 'all goroutines gone'."""
     cfgs = [dict(c, id=i) for i, c in enumerate(cfgs)]
-    f = os.path.join(d, "live_%s.json" % module)
+    f = os.path.join(d, "live_%s_%s.json" % (module, prop))
     json.dump({"cfgs": cfgs, "qstep": False, "maxt": 4, "maxcalls": 3, "maxsched": 1000}, open(f, "w"))
-    cfgtxt = "CONSTANTS\n Cfgs <- MCCfgs\n QStep <- MCQStep\n KeepSched = FALSE\n" + MODEL_CONST.get(module, "").replace("CONSTRAINT Bounded\n", "") + "SPECIFICATION FairSpec\nPROPERTY " + prop + "\nCHECK_DEADLOCK FALSE\n"
+    cfgtxt = "CONSTANTS\n Cfgs <- MCCfgs\n QStep <- MCQStep\n KeepSched = FALSE\n" + MODEL_CONST.get(module, "").replace("CONSTRAINT Bounded\n", "") + "SPECIFICATION " + spec + "\nPROPERTY " + prop + "\nCHECK_DEADLOCK FALSE\n"
     r = run_tlc(module + "MC", cfgtxt, files=[(module + "MC.tla", MC_TEMPLATE % {"mod": module})], env={"CFG_FILE": f}, timeout=timeout)
-    run.add_mc(module + "MC(liveness:" + prop + ")", r, {"configurations": len(cfgs), "fairness": "FairSpec"})
+    run.add_mc(module + "MC(liveness:" + prop + ")", r, {"configurations": len(cfgs), "fairness": spec})
     log("phase: %sMC liveness %s: %d configurations, %d distinct states, %.1fs%s" % (module, prop, len(cfgs), r.distinct, r.wall, " VIOLATED" if r.violated else ""))
     if r.violated:
         raise Infra("model error: %s violates the liveness property %s under fairness" % (module, prop))
@@ -369,6 +369,16 @@ def check(run, replay=None):
             tasks.append(lambda: model_live(run, "Stage", lcf, d, "EventuallyGone"))
         if pid == "C08":
             tasks.append(lambda: model_live(run, "Unbound", [C(kind="New", cap=c, inputs=[[1, 2, 3]] if not th else [[1, 2, 3, 4]]) for c in (0, 1, 2)], d, "EventuallyClosed"))
+        if pid in ("C06", "C12"):
+            # (the output buffer holds one value per input: three values per input make the forwarders wait on it)
+            jl = [C(kind="Join", cap=c, inputs=[[100 * (i + 1) + k for k in range(1, m + 1)] for i in range(n)]) for c in (0, 1)
+                  for (n, m) in (((1, 3), (2, 2), (2, 3), (3, 2)) if th else ((1, 3), (2, 2)))]
+            tasks.append(lambda: model_live(run, "JoinStage", jl, d, "EventuallyGone"))
+            if pid == "C12":
+                tasks.append(lambda: model_live(run, "JoinStage", jl, d, "EventuallyClosed", spec="FairRecvSpec"))
+        if pid in ("C06", "C13"):
+            tl = [C(kind="Throttling", cap=c, ops=o, interval=2, inputs=[[1, 2] if not th else [1, 2, 3]]) for c in (0, 1) for o in (1, 2)]
+            tasks.append(lambda: model_live(run, "Throttle", tl, d, "EventuallyGone"))
         ntl = len(tasks)
         if pid in ("C06", "C07", "C11", "C12", "C13"):
             tasks += clocked_models(run, pid, th, d, rng)
